@@ -28,6 +28,58 @@ out = prtpy.out
 O = prtpy.obj
 
 
+# ---------------------------------------------------------------- interpreter state of the library (C15)
+
+import copy as _copy, types as _types   # noqa: E402
+
+
+def _state_cells():
+    """every place where the library could keep state between calls: mutable containers at module level, class attributes
+    and default arguments of its functions"""
+    cells = []
+    for mname, m in list(sys.modules.items()):
+        if not (mname == 'prtpy' or mname.startswith('prtpy.')) or m is None:
+            continue
+        for name, val in list(vars(m).items()):
+            if name.startswith('__'):
+                continue
+            if isinstance(val, (dict, list, set)):
+                cells.append((m, name, val))
+            elif isinstance(val, type) and getattr(val, '__module__', None) == mname:
+                for an, av in list(vars(val).items()):
+                    if not an.startswith('__') and isinstance(av, (dict, list, set)):
+                        cells.append((val, an, av))
+            elif isinstance(val, _types.FunctionType) and val.__module__ == mname and val.__defaults__:
+                for i, d in enumerate(val.__defaults__):
+                    if isinstance(d, (dict, list, set)):
+                        cells.append((val, '__defaults__[%d]' % i, d))
+    return cells
+
+
+_BASELINE = None
+
+
+def snapshot_state():
+    global _BASELINE
+    _BASELINE = {(id(owner), name): (obj, _copy.copy(obj)) for owner, name, obj in _state_cells()}
+
+
+def restore_state():
+    """put the library back into the state it had when it was imported (a 'fresh interpreter' as far as prtpy is concerned)"""
+    for owner, name, obj in _state_cells():
+        base = _BASELINE.get((id(owner), name))
+        if base is not None and base[0] is obj:
+            saved = base[1]
+            if isinstance(obj, list): obj[:] = saved
+            else:
+                obj.clear(); obj.update(saved)
+        else:
+            obj.clear()          # a container that did not exist (or was another object) at import time
+
+
+snapshot_state()
+
+
 def mod(name):
     return sys.modules[name]
 
@@ -69,9 +121,23 @@ def cg_kwargs(mask):
 NAMES = 'abcdefghijklmnopqrstuvwxyz'
 
 
-def item_vars(c, n, lo=0, order='any', prefix='x', fixed=None):
-    """n integer variables >= lo; order in any/desc/asc.  fixed: {position: int} concrete positions (tier B)."""
+def item_vars(c, n, lo=0, order='any', prefix='x', fixed=None, groups=None):
+    """n integer variables >= lo; order in any/desc/asc.  fixed: {position: int} concrete positions (tier B).
+    groups: multiplicities, e.g. [3,2,2] = 7 items of which the first three share ONE variable, the next two another ...
+    (tier C: inputs with repeated values; order then refers to the group values)."""
     idx = []
+    if groups:
+        assert sum(groups) == n
+        for g, m in enumerate(groups):
+            j = c.newvar('%s%d' % (prefix, g))
+            c.assume(c.zvars[j] >= lo)
+            idx += [j] * m
+        uniq = [idx[sum(groups[:g])] for g in range(len(groups))]
+        if order == 'desc':
+            for a, b in zip(uniq, uniq[1:]): c.assume(c.zvars[a] >= c.zvars[b])
+        elif order == 'asc':
+            for a, b in zip(uniq, uniq[1:]): c.assume(c.zvars[a] <= c.zvars[b])
+        return idx
     for i in range(n):
         j = c.newvar('%s%d' % (prefix, i))
         idx.append(j)
